@@ -69,7 +69,12 @@ fn get_set_cached<T: Clone>(
     };
     #[cfg(graphql_client_verif)]
     let mut verif_turn = verif::wait_turn();
-    let mut lock = cache.lock().expect("cache is poisoned");
+    // A loader that panicked (missing or invalid file) poisons the mutex, but it cannot leave the
+    // map in an inconsistent state: `or_insert_with` inserts nothing in that case. Keep using it, so
+    // that one failing input does not make every later call in the process fail.
+    let mut lock = cache
+        .lock()
+        .unwrap_or_else(|poisoned| poisoned.into_inner());
     #[cfg(graphql_client_verif)]
     verif_turn.acquired();
     #[cfg(graphql_client_verif)]
